@@ -24,23 +24,38 @@ def isSuffixB (p v : Bytes) : Bool := isPrefixB p.reverse v.reverse
 
 def isDigit (b : UInt8) : Bool := 48 ≤ b && b ≤ 57
 
-def digitsVal (ds : Bytes) : Nat := ds.foldl (fun acc d => acc * 10 + (d.toNat - 48)) 0
+/-- strconv.ParseUint(s, 10, 64) scanning left to right: an invalid byte met before the
+    value overflows 64 bits is a syntax error; overflow met first is a range error. -/
+inductive Scan | syntax | range | val (n : Nat)
+deriving Repr, DecidableEq
+
+def scanDigits : Bytes → Nat → Scan
+  | [], acc => .val acc
+  | d :: ds, acc =>
+    if !isDigit d then .syntax
+    else
+      let acc' := acc * 10 + (d.toNat - 48)
+      if acc' ≥ 18446744073709551616 then .range else scanDigits ds acc'
 
 def maxInt64 : Int := 9223372036854775807
 def minInt64 : Int := -9223372036854775808
 
-/-- syntax error ⇒ 0; range error ⇒ clamped (ParseInt returns the extreme value with ErrRange). -/
+/-- strconv.Atoi with the error dropped (`d, _ := strconv.Atoi(s)`): syntax error ⇒ 0;
+    range error ⇒ the extreme value (ParseInt returns it together with ErrRange). -/
 def atoi (s : Bytes) : Int :=
   match s with
   | [] => 0
   | c :: rest =>
     let neg := c == 0x2d
     let ds := if c == 0x2d || c == 0x2b then rest else s
-    if ds.isEmpty || !ds.all isDigit then 0
-    else
-      let n : Int := digitsVal ds
-      if neg then (if n > 9223372036854775808 then minInt64 else -n)
-      else (if n > maxInt64 then maxInt64 else n)
+    if ds.isEmpty then 0
+    else match scanDigits ds 0 with
+      | .syntax => 0
+      | .range => if neg then minInt64 else maxInt64
+      | .val n =>
+        let n : Int := n
+        if neg then (if n > 9223372036854775808 then minInt64 else -n)
+        else (if n > maxInt64 then maxInt64 else n)
 
 /-- strconv.Atoi with the error kept: `none` on syntax or range error (validateByteRange) -/
 def atoiStrict (s : Bytes) : Option Int :=
@@ -49,11 +64,14 @@ def atoiStrict (s : Bytes) : Option Int :=
   | c :: rest =>
     let neg := c == 0x2d
     let ds := if c == 0x2d || c == 0x2b then rest else s
-    if ds.isEmpty || !ds.all isDigit then none
-    else
-      let n : Int := digitsVal ds
-      if neg then (if n > 9223372036854775808 then none else some (-n))
-      else (if n > maxInt64 then none else some n)
+    if ds.isEmpty then none
+    else match scanDigits ds 0 with
+      | .syntax => none
+      | .range => none
+      | .val n =>
+        let n : Int := n
+        if neg then (if n > 9223372036854775808 then none else some (-n))
+        else (if n > maxInt64 then none else some n)
 
 /-! ### the string and numeric operators (streq.go, contains.go, …, eq.go, ge.go, gt.go, le.go, lt.go) -/
 
